@@ -28,12 +28,25 @@ def stores_for(ctx, mix, scale=1):
         out.append((pipe.single(gen.render(rng, gen.program(rng))), "a.s", "random"))
     for _ in range(mix.get("handlers", 0) * k):
         out.append((pipe.single(gen.handler_prog(rng)), "a.s", "handlers"))
+    if mix.get("cutflow", 0) or mix.get("cutinjected", 0):
+        from props import C15          # programs spread over include trees (cut at random line boundaries)
+        for _ in range(mix.get("cutflow", 0) * k):
+            lines = [l for l in gen.random_flow(rng).split("\n") if l.strip()]
+            files, base, _w = C15.split_program(rng, lines)
+            out.append((files, base, "cutflow"))
+        for _ in range(mix.get("cutinjected", 0) * k):
+            L, _m = gen.conforming(rng, nfuncs=rng.randrange(1, 3))
+            r = gen.inject(rng, L, rng.choice(gen.VIOLATIONS))
+            files, base, _w = C15.split_program(rng, list(r[0]) if r else L)
+            out.append((files, base, "cutinjected"))
     for _ in range(mix.get("loopfn", 0) * k):
         out.append((pipe.single(gen.loop_fn_prog(rng)), "a.s", "loopfn"))
     for _ in range(mix.get("fold", 0) * k):
         out.append((pipe.single(gen.fold_prog(rng)), "a.s", "fold"))
     for _ in range(mix.get("csrmem", 0) * k):
         out.append((pipe.single(gen.csr_mem_prog(rng)), "a.s", "csrmem"))
+    for _ in range(mix.get("spswitch", 0) * k):
+        out.append((pipe.single(gen.sp_switch_prog(rng)), "a.s", "spswitch"))
     for _ in range(mix.get("stack", 0) * k):
         out.append((pipe.single(gen.stack_fuzz(rng)), "a.s", "stack"))
     for _ in range(mix.get("mutated", 0) * k):
